@@ -150,6 +150,16 @@ def install():
 
     aiofiles.ospath.getmtime = aiofiles.base.wrap(v_getmtime)
 
+    # the same answer for code that asks os.path directly (real mtimes are wall-clock time and would
+    # always look "newer" than the virtual ones); only folders and .mh_sequences files under a jail
+    def v_os_getmtime(path):
+        p = os.fspath(path)
+        if isinstance(p, str) and "/asimap-verif-" in p:
+            return v_getmtime(p)
+        return real_getmtime(p)
+
+    os.path.getmtime = v_os_getmtime
+
     # --- asimap modules ----------------------------------------------------------------
     import time as _time
 
